@@ -114,6 +114,8 @@ def run(ctx):
     CONV = r"(?:TryInto::try_into|TryFrom::try_from|(?:\w+::)*try_from)"
     good_m, why_m = bool(mps), ""
     for p in mps:
+        if p.kind == "loop":
+            continue                                   # cut off by the unrolling bound
         if p.kind != "ret":
             good_m, why_m = False, f"{p.kind} path"
             break
